@@ -610,17 +610,25 @@ fn value(float_weight: u32) -> BoxedStrategy<J> {
 // exhaustive key sets
 const ALPHA8: &[&str] = &["a", "b", "!", "\"", "\\", "\u{1}", " ", "\u{e9}"];
 
-fn all_keys() -> Vec<String> {
+/// a second alphabet around the two escaped characters: every neighbour class of '"' (0x22) and
+/// '\\' (0x5c) in code-point order
+const ALPHA_ESC: &[&str] = &["\"", "#", "0", "A", "[", "\\", "]", "a"];
+
+fn all_keys_over(alpha: &[&str]) -> Vec<String> {
     let mut v = vec![String::new()];
-    for a in ALPHA8 {
+    for a in alpha {
         v.push(a.to_string());
     }
-    for a in ALPHA8 {
-        for b in ALPHA8 {
+    for a in alpha {
+        for b in alpha {
             v.push(format!("{a}{b}"));
         }
     }
     v
+}
+
+fn all_keys() -> Vec<String> {
+    all_keys_over(ALPHA8)
 }
 
 #[derive(Clone, Debug, Serialize, Deserialize)]
@@ -705,7 +713,10 @@ fn check_keyset(ks: &KeySet, seen: &Mutex<HashMap<Vec<u8>, Vec<String>>>) -> Out
 }
 
 fn keysets(max: usize) -> Vec<KeySet> {
-    let keys = all_keys();
+    keysets_over(&all_keys(), max)
+}
+
+fn keysets_over(keys: &[String], max: usize) -> Vec<KeySet> {
     let n = keys.len();
     let mut v = vec![KeySet(vec![])];
     for i in 0..n {
@@ -804,6 +815,17 @@ pub fn check(ctx: &Ctx) -> Vec<PartReport> {
             require: vec![],
         },
     ));
+    let seen2 = Mutex::new(HashMap::new());
+    out.push(run_part(
+        ctx,
+        PartSpec {
+            name: "keysets-escapes",
+            rule: "EXHAUSTIVE: the same enumeration (all sets of <=3 keys of length <=2, every insertion order) over a second alphabet {\", #, 0, A, [, \\, ], a}: the two characters that are escaped and their code-point neighbours on both sides, so that ordering by the escaped spelling instead of the key is visible. Non-trivial / distinct as in keysets",
+            mode: Mode::Enumerate { cases: keysets_over(&all_keys_over(ALPHA_ESC), 3), complete: true },
+            prop: Box::new(|k: &KeySet| check_keyset(k, &seen2)),
+            require: vec![],
+        },
+    ));
     let n = ctx.cases(400_000, 6_000_000);
     out.push(run_part(
         ctx,
@@ -837,7 +859,7 @@ pub fn replay(_ctx: &Ctx, part: &str, case: &Value) -> Outcome {
     }
     match part {
         "colliding-keys" => crate::engine::replay_case::<Collision>(case, check_collision),
-        "keysets" => {
+        "keysets" | "keysets-escapes" => {
             let seen = Mutex::new(HashMap::new());
             crate::engine::replay_case::<KeySet>(case, |k| check_keyset(k, &seen))
         }
